@@ -118,6 +118,16 @@ def _merge(parts):
     return out
 
 
+def _fold_excinfo(args):
+    """`type(err), err, err.__traceback__` of the exception being handled is what `*sys.exc_info()` passes."""
+    args = list(args)
+    for i in range(len(args) - 2):
+        t, e, tb = args[i:i + 3]
+        if isinstance(e, ExcV) and isinstance(t, App) and t.op == "type" and t.args == (e,) and isinstance(tb, Sym) and tb.tag == ("excattr", "__traceback__"):
+            return tuple(args[:i]) + (App("star", (App("excinfo", ()),)),) + tuple(args[i + 3:])
+    return tuple(args)
+
+
 def canon_events(trace, ref=False):
     out = []
     for e in trace:
@@ -163,7 +173,7 @@ def canon_events(trace, ref=False):
         elif k == "call":
             label = e[1]
             if label == "call_func":
-                args = e[2]
+                args = _fold_excinfo(e[2])
                 out.append(("pycall", canon(args[0]), tuple(canon(a) for a in args[2:]),
                             tuple(("**" if kk.startswith("**") else kk, canon(vv)) for kk, vv in e[3])))
             elif label in ("loopvar_scope_save", "loopvar_scope_restore", "ast_attribute_collapse", "get_names"):
